@@ -41,6 +41,21 @@ const (
 
 type comp struct{ cid, how, code, rid int64 }
 
+// rec is what was observed for one op
+type rec struct {
+	a, b  int64
+	comps []comp
+	ran   bool
+}
+
+// nestSpec: ops to run from inside the k-th completion callback of the op being executed
+type nestSpec struct {
+	k    int
+	ops  Sx
+	recs []*rec
+	seen int
+}
+
 type syncCall struct {
 	gid  int32
 	done int32
@@ -50,7 +65,10 @@ type hist struct {
 	cli   *qnet.RpcClient
 	t0    time.Time
 	mu    sync.Mutex
-	comps []comp // completions since the last collection
+	recs  []*rec // one record per executed (or skipped) op, in the order of the input (outer op, then its nested ops)
+	cur   *rec   // the op being executed: completions are attributed to it
+	nest  *nestSpec
+	bad   bool // a blocking caller neither returned nor parked
 	syncs []*syncCall
 	pkts  map[fatchoy.IPacket]int64 // response packets handed to Dispatch -> rid
 	ncall int64
@@ -66,7 +84,9 @@ func (h *hist) at(ms int64) time.Time { return h.t0.Add(time.Duration(ms) * time
 
 func (h *hist) log(c comp) {
 	h.mu.Lock()
-	h.comps = append(h.comps, c)
+	if h.cur != nil {
+		h.cur.comps = append(h.cur.comps, c)
+	}
 	h.mu.Unlock()
 }
 
@@ -86,6 +106,21 @@ func (h *hist) callback(cid int64) qnet.RpcHandler {
 			rid = ridOf(msg)
 		}
 		h.log(comp{cid, 1, int64(code), rid})
+		// events that land while this completion is in flight (another dispatcher, the reaper's sweep):
+		// the history may ask for some to be issued right here, from inside the callback
+		if n := h.nest; n != nil {
+			n.seen++
+			if n.seen == n.k {
+				h.nest = nil
+				// blocking callers released so far log their completion under the op that released them
+				if !h.settle() {
+					h.bad = true
+				}
+				for j := 0; j < n.ops.Len(); j++ {
+					h.exec(n.ops.At(j), n.recs[j])
+				}
+			}
+		}
 		return nil
 	}
 }
@@ -145,17 +180,17 @@ func (h *hist) settle() bool {
 	}
 }
 
-func (h *hist) collect() Sx {
-	h.mu.Lock()
-	cs := h.comps
-	h.comps = nil
-	h.mu.Unlock()
+func (r *rec) sx() Sx {
+	if !r.ran {
+		return List(Int(-9), Int(0), List())
+	}
+	cs := r.comps
 	sort.Slice(cs, func(i, j int) bool { return cs[i].cid < cs[j].cid })
 	l := make([]Sx, len(cs))
 	for i, c := range cs {
 		l[i] = Ints(c.cid, c.how, c.code, c.rid)
 	}
-	return ListOf(l)
+	return List(Int(r.a), Int(r.b), ListOf(l))
 }
 
 var node = fatchoy.MakeNodeID(3, 7)
@@ -191,6 +226,89 @@ func (h *hist) takeRequest(wait *syncCall) (uint16, bool) {
 	}
 }
 
+// nestedOf: (1 seq rid err dec (nested...)) -> first callback; (3 k (nested...)) -> k-th callback
+func nestedOf(op Sx) (int, Sx, bool) {
+	switch {
+	case op.At(0).AsInt() == 1 && op.Len() == 6 && op.At(5).Len() > 0:
+		return 1, op.At(5), true
+	case op.At(0).AsInt() == 3 && op.Len() == 3 && op.At(2).Len() > 0:
+		return op.At(1).AsInt(), op.At(2), true
+	}
+	return 0, Sx{}, false
+}
+
+// exec performs one op (outer, or nested = called from inside a completion callback) and fills r.
+func (h *hist) exec(op Sx, r *rec) {
+	h.mu.Lock()
+	prev := h.cur
+	h.cur = r
+	h.mu.Unlock()
+	r.ran = true
+	var a, b int64
+	switch op.At(0).AsInt() {
+	case 0:
+		cid := h.ncall
+		h.ncall++
+		adj := op.At(2).Int64()
+		var seq uint16
+		var queued bool
+		if op.At(1).AsBool() {
+			sc := &syncCall{}
+			h.syncs = append(h.syncs, sc)
+			go func() {
+				atomic.StoreInt32(&sc.gid, int32(Goid()))
+				var ctx *qnet.RpcContext
+				p, _ := Catch(func() { ctx = h.cli.Call(node, wrapperspb.String("q")) })
+				if p || ctx == nil {
+					h.log(comp{cid, 0, -98, -98})
+				} else {
+					ack := ctx.VerifAck()
+					h.mu.Lock()
+					rid, ours := h.pkts[ack]
+					h.mu.Unlock()
+					if !ours {
+						rid = -1
+					}
+					h.log(comp{cid, 0, int64(ack.Errno()), rid})
+				}
+				atomic.StoreInt32(&sc.done, 1)
+			}()
+			seq, queued = h.takeRequest(sc)
+		} else {
+			Catch(func() { h.cli.AsyncCall(node, wrapperspb.String("q"), h.callback(cid)) })
+			seq, queued = h.takeRequest(nil)
+		}
+		if queued && adj != 0 {
+			h.cli.VerifSetDeadline(seq, h.at(adj))
+		}
+		a = int64(seq)
+	case 1:
+		p := response(uint16(op.At(1).Uint64()), op.At(2).Int64(), int32(op.At(3).Int64()), op.At(4).AsBool())
+		h.mu.Lock()
+		h.pkts[p] = op.At(2).Int64()
+		h.mu.Unlock()
+		var err error
+		if pn, _ := Catch(func() { err = h.cli.Dispatch(p) }); pn {
+			b = 2
+		} else if err != nil {
+			b = 1
+		}
+	case 2:
+		h.cli.VerifSweep(h.at(op.At(1).Int64()))
+	case 3:
+		Catch(func() { b = int64(h.cli.ReapTimeout()) })
+	case 4:
+		a, b = h.burst(op.At(1).AsInt())
+	}
+	if !h.settle() {
+		h.bad = true
+	}
+	r.a, r.b = a, b
+	h.mu.Lock()
+	h.cur = prev
+	h.mu.Unlock()
+}
+
 func run(in Sx) Sx {
 	if in.Len() == 4 { // (2 ncallers percaller seed): concurrent callers, evaluated on the Go side
 		code, what := stress(in.At(1).AsInt(), in.At(2).AsInt(), in.At(3).Uint64())
@@ -202,70 +320,28 @@ func run(in Sx) Sx {
 	}
 	h := newHist(uint16(in.At(0).Uint64()))
 	ops := in.At(1)
-	var obs []Sx
-	inconclusive := false
 	for i := 0; i < ops.Len(); i++ {
 		op := ops.At(i)
-		var a, b int64
-		switch op.At(0).AsInt() {
-		case 0:
-			cid := h.ncall
-			h.ncall++
-			adj := op.At(2).Int64()
-			var seq uint16
-			var queued bool
-			if op.At(1).AsBool() {
-				sc := &syncCall{}
-				h.syncs = append(h.syncs, sc)
-				go func() {
-					atomic.StoreInt32(&sc.gid, int32(Goid()))
-					var ctx *qnet.RpcContext
-					p, _ := Catch(func() { ctx = h.cli.Call(node, wrapperspb.String("q")) })
-					if p || ctx == nil {
-						h.log(comp{cid, 0, -98, -98})
-					} else {
-						ack := ctx.VerifAck()
-						h.mu.Lock()
-						rid, ours := h.pkts[ack]
-						h.mu.Unlock()
-						if !ours {
-							rid = -1
-						}
-						h.log(comp{cid, 0, int64(ack.Errno()), rid})
-					}
-					atomic.StoreInt32(&sc.done, 1)
-				}()
-				seq, queued = h.takeRequest(sc)
-			} else {
-				Catch(func() { h.cli.AsyncCall(node, wrapperspb.String("q"), h.callback(cid)) })
-				seq, queued = h.takeRequest(nil)
+		r := &rec{}
+		h.recs = append(h.recs, r)
+		// reserve the records of the nested ops right behind (they stay "not run" if no callback fires)
+		var n *nestSpec
+		if k, nested, ok := nestedOf(op); ok {
+			n = &nestSpec{k: k, ops: nested}
+			for j := 0; j < nested.Len(); j++ {
+				nr := &rec{}
+				n.recs = append(n.recs, nr)
+				h.recs = append(h.recs, nr)
 			}
-			if queued && adj != 0 {
-				h.cli.VerifSetDeadline(seq, h.at(adj))
-			}
-			a = int64(seq)
-		case 1:
-			p := response(uint16(op.At(1).Uint64()), op.At(2).Int64(), int32(op.At(3).Int64()), op.At(4).AsBool())
-			h.mu.Lock()
-			h.pkts[p] = op.At(2).Int64()
-			h.mu.Unlock()
-			var err error
-			if pn, _ := Catch(func() { err = h.cli.Dispatch(p) }); pn {
-				b = 2
-			} else if err != nil {
-				b = 1
-			}
-		case 2:
-			h.cli.VerifSweep(h.at(op.At(1).Int64()))
-		case 3:
-			Catch(func() { b = int64(h.cli.ReapTimeout()) })
-		case 4:
-			a, b = h.burst(op.At(1).AsInt())
 		}
-		if !h.settle() {
-			inconclusive = true
-		}
-		obs = append(obs, List(Int(a), Int(b), h.collect()))
+		h.nest = n
+		h.exec(op, r)
+		h.nest = nil
+	}
+	inconclusive := h.bad
+	obs := make([]Sx, len(h.recs))
+	for i, r := range h.recs {
+		obs[i] = r.sx()
 	}
 	// deadlines the code computed itself are start + 60 s + (time since start); the sweeps meant to
 	// expire them are at >= 90 s and the others at <= 45 s, so a history may take up to 15 s of real
@@ -397,14 +473,47 @@ func genHistory(rng *Rng) Sx {
 			if rng.Chance(3, 10) {
 				errno = int64(rng.Range(1, 23))
 			}
-			ops = append(ops, Ints(1, int64(seq), rid, errno, int64(Bool(!rng.Chance(3, 20)).Int64())))
+			dec := int64(Bool(!rng.Chance(3, 20)).Int64())
+			if rng.Chance(1, 4) {
+				// while this response's callback runs: a duplicate of it arrives on another dispatcher,
+				// the reaper's sweep passes, ReapTimeout runs
+				var nested []Sx
+				if rng.Bool() {
+					nested = append(nested, Ints(1, int64(seq), rid+1000, 0, 1))
+				}
+				if rng.Bool() {
+					now := sweeps[rng.Intn(len(sweeps))]
+					nested = append(nested, Ints(2, now))
+					m.sweep(now)
+				}
+				if rng.Bool() {
+					nested = append(nested, Ints(3))
+				}
+				if rng.Chance(1, 3) {
+					nested = append(nested, Ints(1, int64(seq), rid+2000, int64(rng.Range(0, 3)), 1))
+				}
+				ops = append(ops, List(Int(1), Int(int64(seq)), Int(rid), Int(errno), Int(dec), ListOf(nested)))
+			} else {
+				ops = append(ops, Ints(1, int64(seq), rid, errno, dec))
+			}
 			rid++
 		case k < 18:
 			now := sweeps[rng.Intn(len(sweeps))]
 			ops = append(ops, Ints(2, now))
 			m.sweep(now)
 		case k < 19:
-			ops = append(ops, Ints(3))
+			if rng.Chance(1, 2) {
+				// a sweep (and more) lands while ReapTimeout is working through its batch
+				now := sweeps[rng.Intn(len(sweeps))]
+				nested := []Sx{Ints(2, now)}
+				m.sweep(now)
+				if rng.Bool() {
+					nested = append(nested, Ints(3))
+				}
+				ops = append(ops, List(Int(3), Int(int64(rng.Range(1, 3))), ListOf(nested)))
+			} else {
+				ops = append(ops, Ints(3))
+			}
 		default:
 			nb := rng.Range(1, 30)
 			ops = append(ops, Ints(4, int64(nb)))
@@ -422,6 +531,42 @@ func genHistory(rng *Rng) Sx {
 		}
 	}
 	ops = append(ops, Ints(3))
+	return List(Uint(uint64(c0)), ListOf(ops))
+}
+
+// events landing while a completion is in flight, directed
+func genNested(rng *Rng) Sx {
+	c0 := uint16(rng.PickInt(0, 65534, rng.Intn(65536)))
+	m := &aim{counter: c0}
+	var ops []Sx
+	if rng.Bool() {
+		// answered call: while its callback runs a duplicate response arrives and the sweep passes
+		n := rng.Range(1, 4)
+		var seqs []uint16
+		for i := 0; i < n; i++ {
+			ops = append(ops, Ints(0, 0, rng.PickI64(0, 1000, 5000)))
+			seqs = append(seqs, m.call(0))
+		}
+		x := rng.Intn(n)
+		nested := []Sx{Ints(1, int64(seqs[x]), 50, 0, 1), Ints(2, 200000), Ints(1, int64(seqs[x]), 51, int64(rng.Range(0, 2)), 1)}
+		if rng.Bool() {
+			nested = append(nested, Ints(3))
+		}
+		ops = append(ops, List(Int(1), Int(int64(seqs[x])), Int(7), Int(int64(rng.PickInt(0, 0, 9))), Int(1), ListOf(nested)))
+		ops = append(ops, Ints(3), Ints(1, int64(seqs[x]), 52, 0, 1), Ints(3))
+	} else {
+		// two batches of expired calls: the second batch expires while ReapTimeout works on the first
+		n1, n2 := rng.Range(2, 5), rng.Range(1, 5)
+		for i := 0; i < n1; i++ {
+			ops = append(ops, Ints(0, int64(rng.Intn(4)/3), 1000))
+		}
+		for i := 0; i < n2; i++ {
+			ops = append(ops, Ints(0, int64(rng.Intn(4)/3), 5000))
+		}
+		ops = append(ops, Ints(2, 2000))
+		ops = append(ops, List(Int(3), Int(int64(rng.Range(1, 2))), ListOf([]Sx{Ints(2, 6000)})))
+		ops = append(ops, Ints(3), Ints(2, 200000), Ints(3))
+	}
 	return List(Uint(uint64(c0)), ListOf(ops))
 }
 
@@ -682,8 +827,23 @@ func gen(a Args, out *Out) {
 		if in.Len() == 1 || in.Len() == 4 {
 			return
 		}
-		for i := 0; i < in.At(1).Len() && obs.Len() == in.At(1).Len(); i++ {
+		var flat []Sx
+		for i := 0; i < in.At(1).Len(); i++ {
 			op := in.At(1).At(i)
+			flat = append(flat, op)
+			if _, nested, ok := nestedOf(op); ok {
+				out.Count("op with events issued from inside its completion callback")
+				for j := 0; j < nested.Len(); j++ {
+					flat = append(flat, nested.At(j))
+				}
+			}
+		}
+		for i := 0; i < len(flat) && obs.Len() == len(flat); i++ {
+			op := flat[i]
+			if obs.At(i).At(0).Int64() == -9 {
+				out.Count("nested op not run (no callback fired)")
+				continue
+			}
 			out.Count("op:" + []string{"call", "dispatch", "sweep", "reap", "burst"}[op.At(0).AsInt()])
 			if op.At(0).AsInt() == 0 && op.At(1).AsBool() {
 				out.Count("call:blocking")
@@ -706,6 +866,10 @@ func gen(a Args, out *Out) {
 	r1, r2, r3 := rng.Fork(), rng.Fork(), rng.Fork()
 	for i := 0; i < nwrap; i++ {
 		emit("wrap", genWrap(r2))
+	}
+	r5 := rng.Fork()
+	for i := 0; i < nhist/8; i++ {
+		emit("nested", genNested(r5))
 	}
 	for i := 0; i < nhist; i++ {
 		emit("history", genHistory(r1))
